@@ -126,6 +126,7 @@ struct ShadowTri {
 struct Shadow {
     std::map<unsigned, std::array<double, 3>> pos;  // live nodes
     std::map<unsigned, V3> mom;
+    std::map<unsigned, ld> merr;  // running bound on the rounding error the code's double arithmetic may have put into that momentum during this pass
     std::vector<ShadowTri> tris;                          // including dead ones (a pass may perform 1e5 operations: no rebuilding)
     std::unordered_map<unsigned, std::vector<int>> idx;   // node -> triangles that contain(ed) it; entries are verified on use
     void index(int i) {
@@ -341,6 +342,11 @@ static std::string run(const Case& k, vf::Ctx& ctx) {
 #if DYNAMIC_MODEL_INDEX == 0
                 V3 ma = sh.mom[op.id_a], mb = sh.mom[op.id_b];
                 sh.mom[op.id_a] = ma * (2.0L / 3), sh.mom[op.id_b] = mb * (2.0L / 3), sh.mom[op.new_id] = (ma + mb) * (1.0L / 3);
+                {
+                    const ld ea = sh.merr[op.id_a], eb = sh.merr[op.id_b];
+                    sh.merr[op.id_a] = ea + 2 * EPS * ma.norm(), sh.merr[op.id_b] = eb + 2 * EPS * mb.norm();
+                    sh.merr[op.new_id] = ea + eb + 4 * EPS * (ma.norm() + mb.norm());
+                }
 #endif
                 ShadowTri t1 = sh.tris[tt[0]], t2 = sh.tris[tt[1]];
                 for (int which = 0; which < 2; which++) {
@@ -364,8 +370,11 @@ static std::string run(const Case& k, vf::Ctx& ctx) {
                 if (sh.pos.count(op.new_id)) return "collapse created a node in a slot that is live";
 #if DYNAMIC_MODEL_INDEX == 0
                 V3 ms = sh.mom[op.id_a] + sh.mom[op.id_b];
+                const ld em = sh.merr[op.id_a] + sh.merr[op.id_b] + 2 * EPS * (sh.mom[op.id_a].norm() + sh.mom[op.id_b].norm());
                 sh.mom.erase(op.id_a), sh.mom.erase(op.id_b);
+                sh.merr.erase(op.id_a), sh.merr.erase(op.id_b);
                 sh.mom[op.new_id] = ms;
+                sh.merr[op.new_id] = em;
 #endif
                 sh.pos.erase(op.id_a), sh.pos.erase(op.id_b);
                 sh.pos[op.new_id] = mid;
@@ -417,7 +426,9 @@ static std::string run(const Case& k, vf::Ctx& ctx) {
                 }
 #if DYNAMIC_MODEL_INDEX == 0
                 V3 mm = ct::to_v3(nl[i].momentum()), me = sh.mom[i];
-                if ((mm - me).norm() > 64 * EPS * (me.norm() + Pabs.norm() / (sh.mom.size() + 1)) + 1e-300) {
+                // a node that took part in many operations of one pass (a chain of collapses that absorbs its neighbours, with cancelling
+                // momenta) carries the rounding of every one of them: the bound accumulated along the replay is added to the flat tolerance
+                if ((mm - me).norm() > 64 * EPS * (me.norm() + Pabs.norm() / (sh.mom.size() + 1)) + 8 * sh.merr[i] + 1e-300) {
                     os << "pass " << pass_no << ": momentum of node " << i << " is (" << (double)mm.x << "," << (double)mm.y << "," << (double)mm.z
                        << ") but the split/collapse momentum rule gives (" << (double)me.x << "," << (double)me.y << "," << (double)me.z << ")";
                     return os.str();
